@@ -17,6 +17,7 @@ It also records what the integrator registration hook received, and evaluates th
 hand, the way tests/test_for_integrators.py does, against the verdict of the real call.
 """
 import contextvars
+import functools
 import inspect
 import re
 
@@ -90,6 +91,8 @@ class Machine:
                     return [("", v.__func__)]
                 if isinstance(v, property):
                     return [(".get", v.fget)] + ([(".set", v.fset)] if v.fset else [])
+                if isinstance(v, functools.cached_property):
+                    return [("", v.func)]
                 return [("", v)]
         return []
 
@@ -172,7 +175,7 @@ class Machine:
             td["cls"] = cname
         else:
             td["obj"] = label
-        if kind == "prop":
+        if kind in ("prop", "cprop"):
             td["op"] = "get"
         if sites:
             td["sites"] = sites
@@ -189,6 +192,8 @@ class Machine:
                     return "class"
                 if isinstance(v, property):
                     return "prop"
+                if isinstance(v, functools.cached_property):
+                    return "cprop"
                 return "method"
         return "method"
 
@@ -369,7 +374,7 @@ class Machine:
                     return
         if kind == "method":
             args = {"self": obj, "t": None}
-        elif kind == "prop":
+        elif kind in ("prop", "cprop"):
             args = {"self": obj}
         elif kind == "prop_set":
             args = {"self": obj, "value": None}
